@@ -2,16 +2,17 @@
 # usage: confirm_mutant.sh <worktree> <mutant dir> <module rel dir> <demo run regex>
 # Confirms in the scratch worktree: (a) module suite passes WITH the patch, (b) demo fails WITH, (c) demo passes WITHOUT.
 set -u
-WT=$1; MD=$2; MOD=$3; RUN=$4
+WT=$1; MD=$2; MOD=$3; RUN=$4; SUITE=${5:-$3}
 export GOFLAGS=-mod=mod GOPROXY=off GOSUMDB=off GOTOOLCHAIN=local
 cd $WT && git checkout -q -- . && git clean -fdq -e _mutants
+git -C $WT checkout -q --detach $(git -C /repo rev-parse HEAD) 2>/dev/null
 cp $MD/*_test.go $WT/$MOD/ 2>/dev/null
 cd $WT/$MOD && go test -vet=off -count=1 -timeout 120s -run "$RUN" . > /tmp/cm_without.log 2>&1; W=$?
 cd $WT && git apply $MD/patch.diff || { echo "PATCH-DOES-NOT-APPLY"; exit 2; }
 cd $WT/$MOD && go test -vet=off -count=1 -timeout 120s -run "$RUN" . > /tmp/cm_with.log 2>&1; X=$?
 rm -f $WT/$MOD/*mutant*_test.go $WT/$MOD/c[0-9][0-9]_*_test.go $WT/$MOD/*demo*_test.go
 cd $WT/$MOD && go build ./... > /tmp/cm_build.log 2>&1; B=$?
-go test -vet=off -count=1 -timeout 10m ./... > /tmp/cm_suite.log 2>&1; S=$?
+cd $WT/$SUITE && go test -vet=off -count=1 -timeout 20m ./... > /tmp/cm_suite.log 2>&1; S=$?
 cd $WT && git checkout -q -- . && git clean -fdq -e _mutants
 echo "demo_without_patch_exit=$W demo_with_patch_exit=$X build_with_patch=$B suite_with_patch_exit=$S"
 if [ $W -eq 0 ] && [ $X -ne 0 ] && [ $B -eq 0 ] && [ $S -eq 0 ]; then echo CONFIRMED; else echo NOT-CONFIRMED; fi
